@@ -115,7 +115,9 @@ def gen_case(rng, nsteps, bias=None):
         else:
             if "x" in o: bigs += 1
             lines.append(o)
-    lines += ["run"] * rng.range(1, 4)
+    lines += ["run"] * rng.range(0, 2)
+    if rng.chance(2, 3):
+        lines += ["envclear"] + ["run"] * rng.choice([3, 6, 12])   # the OS accepts everything from here on
     if rng.chance(1, 2):
         lines += ["c", "run"]
     lines += ["run", "end"]
@@ -134,6 +136,10 @@ def monitor(case, out):
     kind = case[0].split()[1]
     it = iter([l for l in out if not l.startswith("#")])
     for l in out:
+        if l.startswith("sys ") and l.split()[1] != "shutdown" and int(l.split()[2]) > 1024:
+            raise Bad("iov-count-exceeds-IOV_MAX", f"libuv handed {l.split()[2]} iovecs to {l.split()[1]}(2): the kernel answers EMSGSIZE and valid data is never sent")
+
+    for l in out:
         if l.startswith("#harness-env-failure"):
             raise Bad("write-syscall-on-unwritable-fd", "a write reached the descriptor after shutdown(2)/in a state where the kernel refuses it: " + l)
         if l.startswith("#harness-mismatch"):
@@ -142,7 +148,7 @@ def monitor(case, out):
     subs = []           # submissions in call order: dict(id, kind 'w'|'t', total, ret, cbstatus, cbtime, t_accept)
     byid = {}
     events = []         # (time, what, payload) for the post-hoc wqs check
-    st = dict(connecting=kind in ("tcpconn", "tcpfail"), shutdown_ok_at=None, shutsys_ok=False, closed_api=False,
+    st = dict(shut_while_connecting=False, connecting=kind in ("tcpconn", "tcpfail"), shutdown_ok_at=None, shutsys_ok=False, closed_api=False,
               ncb=0, nextid=0, t=0, closecb=False, lastcb=-1, shutcb=False)
     sysacc = []         # (time, n, in_try) accepted bytes
     obs_points = []     # (time, wqs)
@@ -151,10 +157,6 @@ def monitor(case, out):
 
     def tick():
         st["t"] += 1; return st["t"]
-
-    for l in out:
-        if l.startswith("sys ") and l.split()[1] != "shutdown" and int(l.split()[2]) > 1024:
-            raise Bad("iov-count-exceeds-IOV_MAX", f"libuv handed {l.split()[2]} iovecs to {l.split()[1]}(2): the kernel answers EMSGSIZE and valid data is never sent")
 
     def api(opw, nxt):
         """consume the lines of one API op: sys* ret obs"""
@@ -190,8 +192,10 @@ def monitor(case, out):
                 raise Bad("write-after-shutdown", f"uv_try_write after uv_shutdown returned {rc}")
             if st["closed_api"] and rc >= 0:
                 raise Bad("write-after-close", f"write on a closing handle returned {rc}")
+            if (op == "wh" and rc == 0) or (op == "th" and rc > 0):
+                st["handle_subs"] = st.get("handle_subs", 0) + 1
             if op in ("w", "wh") and rc == 0:
-                s = dict(id=sid, kind="w", total=total, cbstatus=None, cbtime=None, t_accept=tick())
+                s = dict(id=sid, kind="w", total=total, nbufs=len(lens), cbstatus=None, cbtime=None, t_accept=tick())
                 subs.append(s); byid[sid] = s
             elif op in ("t", "th") and rc > 0:
                 subs.append(dict(id=sid, kind="t", total=rc, cbstatus=0, cbtime=None, t_accept=tick()))
@@ -200,6 +204,7 @@ def monitor(case, out):
                 raise Bad("log-shape", "syscall inside uv_shutdown")
             if rc == 0:
                 st["shutdown_ok_at"] = tick()
+                st["shut_while_connecting"] = st["connecting"] or st.get("in_conncb", False)
         elif op == "c":
             if rc == 0:
                 st["closed_api"] = True
@@ -229,12 +234,15 @@ def monitor(case, out):
             if early:
                 raise Bad(SIG_SHUT_ORDER, f"shutdown callback ran before the callbacks of earlier writes {early}")
         elif w[0] == "conncb":
-            st["connecting"] = False
+            st["connecting"] = False; st["in_conncb"] = True
+            if int(w[1]) < 0:
+                st["conn_failed"] = True      # never connected: no completion is owed to a shutdown request
         elif w[0] == "closecb":
             st["closecb"] = True
         k = st["ncb"]; st["ncb"] += 1
         for opw in scripts.get(k, []):
             api(opw, nxt)
+        st["in_conncb"] = False
 
     def nxt():
         try:
@@ -248,13 +256,29 @@ def monitor(case, out):
             if nxt() != "opened": raise Bad("log-shape", "no opened")
         elif w[0] == "env":
             pass
+        elif w[0] == "envclear":
+            st["clear_runs"] = 0; st["clear_t"] = tick()
         elif w[0] == "script":
             scripts[int(w[1])] = [x.split(":") for x in w[2:]]
         elif w[0] == "run":
             while True:
                 l = nxt()
                 if l.startswith("ran "):
-                    obs_points.append((tick(), int(l.split("=")[1]))); break
+                    obs_points.append((tick(), int(l.split("=")[1])))
+                    if "clear_runs" in st and not st["closed_api"]:
+                        st["clear_runs"] += 1
+                        # liveness: the OS has accepted everything since `envclear`.  One loop iteration per
+                        # buffer of the requests still owed is enough (an empty buffer costs one iteration).
+                        need = 2 + sum(e["nbufs"] for e in subs if e["kind"] == "w" and (e["cbtime"] is None or e["cbtime"] > st["clear_t"]))
+                        if st["clear_runs"] >= need:
+                            stuck = [e["id"] for e in subs if e["kind"] == "w" and e["cbstatus"] is None]
+                            if stuck:
+                                raise Bad("request-never-completes", f"requests {stuck} got no callback although the descriptor accepted every write for {st['clear_runs']} loop iterations")
+                            if st["shutdown_ok_at"] is not None and not st["shutcb"] and not st.get("conn_failed"):
+                                if st["shut_while_connecting"]:
+                                    raise Bad("shutdown-during-connect-never-completes", "uv_shutdown returned 0 while connecting (or inside the connect callback); connect completed, nothing queued, but neither shutdown(2) nor the shutdown callback happened")
+                                raise Bad("shutdown-never-completes", f"uv_shutdown accepted, queue drained, but no shutdown callback after {st['clear_runs']} loop iterations")
+                    break
                 if l.startswith("sys shutdown"):
                     if st["shutdown_ok_at"] is None:
                         raise Bad("shutdown-unasked", "shutdown(2) without uv_shutdown")
@@ -303,6 +327,10 @@ def monitor(case, out):
         for s in subs:
             if s["kind"] == "w" and s["cbstatus"] is None:
                 raise Bad("cb-missing", f"request {s['id']} never got its callback although the handle was closed")
+    nfds = next((int(l.split()[1]) for l in out if l.startswith("#fds ")), 0)
+    nh = st.get("handle_subs", 0)
+    if nfds > nh:
+        raise Bad("send-handle-resent", f"peer received {nfds} descriptors for {nh} successful uv_write2/uv_try_write2 calls with a handle")
     if st["shutsys_ok"] and not eof:
         raise Bad("eof-missing", "shutdown(2) succeeded but the peer saw no EOF")
     if eof and not (st["shutsys_ok"] or st["closed_api"]):
